@@ -2,7 +2,7 @@
 from pyvc.dsl import *
 
 
-@contract("json_to_models/dynamic_typing/complex.py::StringLiteral.__init__", props=["C10"])
+@contract("json_to_models/dynamic_typing/complex.py::StringLiteral.__init__", props=["C10", "C02"])
 class StringLiteralInit:
     """C10: literal sets overflow when a string has 20+ characters or more than 15 are distinct.
     The constants 15 / 20 are taken from the property, not from the code."""
@@ -113,164 +113,123 @@ def registry_wf(r):
         and distinct(as_list(attr_of(r, "types"))) and forall(as_list(attr_of(r, "types")), lambda t: is_class(t))
 
 
-@contract("json_to_models/dynamic_typing/string_datetime.py::register_datetime_classes", props=["C09"], verify=False)
-class RegisterDatetime:
+@contract(REG + ".add", props=["C09", "C01"])
+class RegistryAdd:
+    """C09: registration appends the class (registration order is detection order) and adds exactly the pairs
+    (t, cls) for the given replace_types; a replace pair is only admissible when cls accepts every string t accepts."""
+    sorts = {"replace_types": "any", "cls": "any", "types": "list", "replaces": "set"}
     modifies = ["types", "replaces"]
 
-
-@assumed("permutations", props=[])
-class Permutations2:
-    """itertools.permutations(s, 2): exactly the ordered pairs of distinct members of s"""
-    sorts = {"a0": "set", "a1": "int", "result": "list"}
-
-    def ensures(self, a0, a1, result):
-        return {
-            "pairs": implies(a1 == 2, forall(result, lambda p: p is tuple2(at(p, 0), at(p, 1)) and at(p, 0) in a0 and at(p, 1) in a0 and not (at(p, 0) is at(p, 1)))),
-            "all_pairs": implies(a1 == 2, forall(a0, lambda a: forall(a0, lambda b: implies(not (a is b), exists(range(seq_len(result)), lambda k: at(result, k) is tuple2(a, b)))))),
-        }
-
-
-@contract(REG + ".remove", props=["C09"])
-class RegistryRemove:
-    """C09 'disabled types never appear': after remove(c) the class is registered no more (one registration removed)
-    and no replace pair mentions it; every other pair is kept."""
-    sorts = {"types": "list", "replaces": "set"}
-    modifies = ["types", "replaces"]
-
-    def requires(self, cls):
-        return {"registered": cls in self.types,
+    def requires(self, replace_types, cls):
+        return {"sound_replacements": forall(as_list(replace_types), lambda t: sub_accepts(t, cls)),
                 "replaces_are_pairs": forall(self.replaces, lambda p: p is tuple2(at(p, 0), at(p, 1)))}
 
-    def ensures(self, cls):
+    def ensures(self, replace_types, cls):
+        given = not is_none(cls) and truthy(cls)
         return {
-            "one_registration_removed": seq_len(self.types) == seq_len(old(self.types)) - 1 and forall(self.types, lambda t: t in old(self.types)),
-            "others_still_registered": forall(old(self.types), lambda t: implies(not (t == cls), t in self.types)),
-            "no_pair_mentions_cls": forall(self.replaces, lambda p: not (at(p, 0) is cls) and not (at(p, 1) is cls)),
-            "other_pairs_kept": forall(old(self.replaces), lambda p: implies(not (at(p, 0) is cls) and not (at(p, 1) is cls), p in self.replaces)),
-            "no_new_pairs": forall(self.replaces, lambda p: p in old(self.replaces)),
-            "gone_if_registered_once": implies(distinct(old(self.types)), distinct(self.types) and not (cls in self.types)),
+            "appended_last": implies(given, seq_len(self.types) == seq_len(old(self.types)) + 1 and at(self.types, seq_len(old(self.types))) is cls
+                                     and forall(range(seq_len(old(self.types))), lambda j: at(self.types, j) is at(old(self.types), j))),
+            "pairs_added": implies(given, forall(as_list(replace_types), lambda t: tuple2(t, cls) in self.replaces)),
+            "only_those_pairs": implies(given, forall(self.replaces, lambda p: p in old(self.replaces) or (at(p, 1) is cls and at(p, 0) in as_list(replace_types)))),
+            "old_pairs_kept": forall(old(self.replaces), lambda p: p in self.replaces),
+            "decorator_form_changes_nothing_yet": implies(not given, unchanged("types") and unchanged("replaces")),
         }
 
 
-@loop(REG + ".remove", 1)
-def registry_remove_loop(self, cls, _it, _seq):
+@loop(REG + ".add", 1)
+def registry_add_loop(self, cls, replace_types, pre_self, _it, _seq):
     return {
-        "subset": forall(self.replaces, lambda p: p in old(self.replaces)),
-        "seen_removed": forall(range(_it), lambda j: implies(at(_seq[j], 0) is cls or at(_seq[j], 1) is cls, not (_seq[j] in self.replaces))),
-        "others_kept": forall(old(self.replaces), lambda p: implies(not (at(p, 0) is cls) and not (at(p, 1) is cls), p in self.replaces)),
-        "unseen_kept": forall(range(_it, seq_len(_seq)), lambda j: _seq[j] in self.replaces),
-        "types_done": seq_len(self.types) == seq_len(old(self.types)) - 1 and forall(self.types, lambda t: t in old(self.types))
-        and forall(old(self.types), lambda t: implies(not (t == cls), t in self.types))
-        and implies(distinct(old(self.types)), distinct(self.types) and not (cls in self.types)),
+        "added_so_far": forall(range(_it), lambda j: tuple2(_seq[j], cls) in self.replaces),
+        "only_those": forall(self.replaces, lambda p: p in old(self.replaces) or (at(p, 1) is cls and exists(range(_it), lambda j: _seq[j] is at(p, 0)))),
+        "old_kept": forall(old(self.replaces), lambda p: p in self.replaces),
+        "types_done": seq_len(self.types) == seq_len(old(self.types)) + 1 and at(self.types, seq_len(old(self.types))) is cls
+        and forall(range(seq_len(old(self.types))), lambda j: at(self.types, j) is at(old(self.types), j)),
     }
 
 
-@contract(REG + ".remove_by_name", props=["C09"])
-class RegistryRemoveByName:
-    """C09: disabling by name removes exactly the classes whose own name or whose actual type's name is that name
-    (given that each class is registered once), and every replace pair mentioning them."""
-    sorts = {"name": "str", "types": "list", "replaces": "set", "types[]": "class", "_seq[]": "class"}
+@contract("json_to_models/dynamic_typing/string_datetime.py::register_datetime_classes", props=["C09", "C01"])
+class RegisterDatetime:
+    """C09/C01: enabling datetime detection registers the three ISO pseudo-types after the existing ones and adds NO replace pair
+    (no date/time pseudo-type may swallow another: their strings and rendered types differ)."""
+    sorts = {"registry": "obj:StringSerializableRegistry", "types": "list", "replaces": "set"}
     modifies = ["types", "replaces"]
 
-    def requires(self, name):
-        return {"replaces_are_pairs": forall(self.replaces, lambda p: p is tuple2(at(p, 0), at(p, 1))),
-                "registered_once": distinct(self.types),
-                "all_classes": forall(self.types, lambda t: is_class(t))}
+    def requires(self, registry):
+        return {"replaces_are_pairs": forall(registry.replaces, lambda p: p is tuple2(at(p, 0), at(p, 1)))}
 
-    def ensures(self, name):
+    def ensures(self, registry):
+        n = seq_len(old(registry.types))
         return {
-            "named_classes_gone": forall(self.types, lambda t: not (cls_name(t) == name or cls_name(clsattr(t, "actual_type")) == name)),
-            "others_kept": forall(old(self.types), lambda t: implies(not (cls_name(t) == name or cls_name(clsattr(t, "actual_type")) == name), t in self.types)),
-            "nothing_added": forall(self.types, lambda t: t in old(self.types)),
-            "still_well_formed": registry_wf(self),
+            "three_appended": seq_len(registry.types) == n + 3 and at(registry.types, n) is IsoDateString and at(registry.types, n + 1) is IsoTimeString
+            and at(registry.types, n + 2) is IsoDatetimeString,
+            "earlier_kept": forall(range(n), lambda j: at(registry.types, j) is at(old(registry.types), j)),
+            "no_new_replace_pairs": forall(registry.replaces, lambda p: p in old(registry.replaces)),
+            "old_pairs_kept": forall(old(registry.replaces), lambda p: p in registry.replaces),
         }
 
 
-@loop(REG + ".remove_by_name", 1)
-def registry_remove_by_name_loop(self, name, _it, _seq):
-    return {
-        "pairs": forall(self.replaces, lambda p: p is tuple2(at(p, 0), at(p, 1))),
-        "seen_named_gone": forall(range(_it), lambda j: implies(cls_name(_seq[j]) == name or cls_name(clsattr(_seq[j], "actual_type")) == name, not (_seq[j] in self.types))),
-        "kept": forall(range(seq_len(_seq)), lambda j: implies(j >= _it or not (cls_name(_seq[j]) == name or cls_name(clsattr(_seq[j], "actual_type")) == name), _seq[j] in self.types)),
-        "nothing_added": forall(self.types, lambda t: t in _seq),
-        "still_classes": forall(self.types, lambda t: is_class(t)),
-        "still_once": distinct(self.types) and distinct(_seq),
-    }
-
-
-@contract(REG + ".resolve", props=["C09", "C01"])
-class RegistryResolve:
-    """C09: resolve only drops a pseudo-type when another *given* type replaces it (so, with a replace relation that is
-    sound - the replacing type accepts every string the replaced one accepts - nothing is lost); it returns a subset of
-    what it was given; no survivor is replaceable by another survivor.  (The step from these three facts to 'every given
-    type is covered by a survivor' is induction over the finite acyclic replace relation: Lean lemma L-RESOLVE.)"""
-    sorts = {"types": "tuple", "result": "set", "replaces": "set", "replaced": "set", "flag": "bool"}
-
-    def requires(self, types):
-        return {"replaces_are_pairs": forall(self.replaces, lambda p: p is tuple2(at(p, 0), at(p, 1)))}
-
-    def ensures(self, types, result):
-        return {
-            "subset_of_given": forall(result, lambda r: r in as_set_of(types)),
-            "no_survivor_replaceable": forall(result, lambda a: forall(result, lambda b: implies(not (a is b), not (tuple2(a, b) in self.replaces)))),
-            "dropped_only_if_replaced": forall(as_set_of(types), lambda t: implies(not (t in result), exists(as_set_of(types), lambda u: not (u is t) and tuple2(t, u) in self.replaces)),
-                                               lambda t: t in result),
-        }
-
-
-@loop(REG + ".resolve", 1)
-def resolve_outer(self, types, pre_types, flag):
-    given = as_set_of(pre_types)
-    return {
-        "subset": forall(types, lambda r: r in given),
-        "dropped_replaced": forall(given, lambda t: implies(not (t in types), exists(given, lambda u: not (u is t) and tuple2(t, u) in self.replaces)),
-                                   lambda t: t in types),
-        "stable_when_done": implies(not flag, forall(types, lambda a: forall(types, lambda b: implies(not (a is b), not (tuple2(a, b) in self.replaces))))),
-    }
-
-
-@loop(REG + ".resolve", 2)
-def resolve_inner(self, types, replaced, flag, _it, _seq):
-    return {
-        "replaced_have_replacement": forall(replaced, lambda x: x in types and exists(types, lambda u: not (u is x) and tuple2(x, u) in self.replaces)),
-        "flag_iff_found": flag == exists(range(_it), lambda j: _seq[j] in self.replaces),
-        "found_are_marked": forall(range(_it), lambda j: implies(_seq[j] in self.replaces, at(_seq[j], 0) in replaced)),
-    }
-
-
-@contract("json_to_models/dynamic_typing/complex.py::DUnion.__init__", props=["C08", "C10", "C01", "C02", "C07"], verify=False)
-class DUnionInit:
-    """(stub for callers; the real clauses U1-U6 are attached below once verified)"""
-    sorts = {"types": "tuple"}
-    modifies = ["_types", "_sorted", "_hash"]
-
-    def ensures(self, types):
-        return {"has_members_list": ty_is(self._types, list)}
-
-
-@contract("json_to_models/dynamic_typing/complex.py::SingleType.__init__", props=[])
-class SingleTypeInit:
+# --------------------------------------------------------------------------------------------- IR node mutation (C08: hash-based de-duplication)
+@contract("json_to_models/dynamic_typing/complex.py::SingleType.type.setter", props=["C08", "C07"])
+class SingleTypeSetter:
+    """C08: unions are de-duplicated by hash string, so a node whose child changes must forget its cached hash string"""
     modifies = ["_type", "_hash"]
 
     def ensures(self, t):
-        return {"wraps": self._type is t, "hash_reset": is_none(self._hash)}
+        return {"child_replaced": self._type is t, "cached_hash_dropped": is_none(self._hash)}
 
 
-@assumed("clsmethod:to_internal_value", props=["C09"])
-class ToInternalValue:
-    """t.to_internal_value(s) raises ValueError exactly when pseudo-type t does not accept the string s
-    (accepts is the spec relation of C09; audited against the six shipped parsers by the bounded grammar stand-in)"""
-    sorts = {"a1": "str", "result": "any"}
-    raises_exact = True
+@contract("json_to_models/dynamic_typing/complex.py::ComplexType.types.setter", props=["C08", "C07"])
+class ComplexTypeSetter:
+    modifies = ["_types", "_hash", "_sorted"]
 
-    def raises(self, a0, a1):
-        return {"ValueError": not accepts(a0, a1)}
+    def ensures(self, value):
+        return {"children_replaced": self._types is value, "cached_hash_dropped": is_none(self._hash), "cached_order_dropped": is_none(self._sorted)}
 
 
-@assumed("method:match", props=["C13"])
-class PatternMatch:
-    """compiled_pattern.match(s): truthy iff the pattern matches at the start of s (re semantics are not modelled: matches is uninterpreted)"""
-    sorts = {"a1": "str", "result": "any"}
+@contract("json_to_models/dynamic_typing/complex.py::SingleType.replace", props=["C08"])
+class SingleTypeReplace:
+    sorts = {"result": "any"}
+    modifies = ["_type", "_hash"]
 
-    def ensures(self, a0, a1, result):
-        return {"truthy_iff_matches": truthy(result) == matches(a0, a1)}
+    def ensures(self, t, kwargs, result):
+        return {"in_place": result is self and self._type is t and is_none(self._hash)}
+
+
+# --------------------------------------------------------------------------------------------- pointer bookkeeping (C05)
+MM = "json_to_models/dynamic_typing/models_meta.py::ModelMeta"
+MP = "json_to_models/dynamic_typing/models_meta.py::ModelPtr"
+
+
+@contract(MP + ".replace", props=["C05"])
+class ModelPtrReplace:
+    """C05 'every reference points to a registered model': retargeting moves the pointer from the old model's pointer set to the new one's"""
+    sorts = {"t": "obj:ModelMeta", "pointers": "set", "result": "any"}
+    modifies = ["_type", "_hash", "pointers"]
+
+    def requires(self, t, kwargs):
+        return {"registered_at_target": self in attr_set(self._type, "pointers"), "model_target": ty_is(self._type, ModelMeta)}
+
+    def ensures(self, t, kwargs, result):
+        return {
+            "retargeted": self._type is t and result is self,
+            "in_new_set": self in attr_set(t, "pointers"),
+            "out_of_old_set": implies(not (old(self._type) is t), not (self in attr_set(old(self._type), "pointers"))),
+            "other_members_kept": forall(old(attr_set(t, "pointers")), lambda p: p in attr_set(t, "pointers")),
+        }
+
+
+@contract(MP + ".replace_parent", props=["C05"])
+class ModelPtrReplaceParent:
+    sorts = {"t": "obj:ModelMeta", "child_pointers": "set", "result": "any", "parent": "obj:ModelMeta"}
+    modifies = ["parent", "_hash", "child_pointers"]
+
+    def requires(self, t, kwargs):
+        return {"registered_at_parent": self in attr_set(self.parent, "child_pointers")}
+
+    def ensures(self, t, kwargs, result):
+        return {
+            "reparented": self.parent is t and result is self,
+            "in_new_set": self in attr_set(t, "child_pointers"),
+            "out_of_old_set": implies(not (old(self.parent) is t), not (self in attr_set(old(self.parent), "child_pointers"))),
+            "other_members_kept": forall(old(attr_set(t, "child_pointers")), lambda p: p in attr_set(t, "child_pointers")),
+        }
